@@ -358,6 +358,14 @@ def eval_bool(t, env):
             x = br[0]
         if isinstance(x, tuple) and x and x[0] == 'agg' and x[2] in VARIANT_INDEX:
             return VARIANT_INDEX[x[2]]
+        if m_call(x, name='from_residual') is not None:
+            # the value a failed `?` hands on: Err(..) of a Result, None of an Option
+            c = CALLEES.get(x[1])
+            tys = ' '.join([c.self_ty or ''] + list(c.args)) if c is not None else ''
+            if 'result::Result' in tys.split(',')[0] or tys.lstrip().startswith('core::result::Result'):
+                return 1
+            if tys.lstrip().startswith('core::option::Option'):
+                return 0 if br is None else 1
         if br is not None:
             # `?` on a value whose own discriminant is known: Ok -> Continue, Err -> Break; Some -> Continue, None -> Break
             known = env.get(('discr', strip_sites(x)))
